@@ -182,7 +182,7 @@ def run(ctx):
 
     quick = ctx.tier == "quick"
     done = []
-    for wfname, depth in ((("fork", 3), ("chain", 2)) if quick else (("fork", 4), ("chain", 4), ("diamond", 3))):
+    for wfname, depth in ((("fork", 3), ("chain", 2)) if quick else (("fork", 5), ("chain", 5), ("diamond", 3))):
         meta = dict(wf=wfname)
         e2.bfs(ctx, me, "expand", inits(wfname), depth, chunk=2, meta=meta)
         done.append(dict(meta, depth=depth))
